@@ -779,6 +779,25 @@ class Engine:
             return env.lookup(name)
         return self.global_name(name, env)
 
+    @staticmethod
+    def mutable_container_kind(dn):
+        """'dict' / 'seq' for an expression that creates an EMPTY mutable container (the usual shape of a memo), else None"""
+        if isinstance(dn, ast.Dict) and not dn.keys:
+            return "dict"
+        if isinstance(dn, (ast.List, ast.Set)) and not dn.elts:
+            return "seq"
+        if isinstance(dn, ast.Call) and isinstance(dn.func, (ast.Name, ast.Attribute)) and not dn.args:
+            fn = dn.func.id if isinstance(dn.func, ast.Name) else dn.func.attr
+            if fn in ("dict", "OrderedDict", "defaultdict", "WeakValueDictionary", "WeakKeyDictionary"):
+                return "dict"
+            if fn in ("list", "set", "deque"):
+                return "seq"
+        if isinstance(dn, ast.Call) and isinstance(dn.func, (ast.Name, ast.Attribute)):
+            fn = dn.func.id if isinstance(dn.func, ast.Name) else dn.func.attr
+            if fn == "defaultdict":
+                return "dict"
+        return None
+
     def global_name(self, name, env):
         mod = env.lookup("__module__") if env.has("__module__") else None
         if mod is not None:
@@ -819,17 +838,7 @@ class Engine:
                 # of the process, hence arbitrary at function entry (opaque dict, kept for the rest of the path) or outside
                 # the subset -- never a fresh empty container.
                 dn = m.assigns[name]
-                kind = None
-                if isinstance(dn, ast.Dict) and not dn.keys:
-                    kind = "dict"
-                elif isinstance(dn, (ast.List, ast.Set)) and not dn.elts:
-                    kind = "seq"
-                elif isinstance(dn, ast.Call) and isinstance(dn.func, (ast.Name, ast.Attribute)):
-                    fn = dn.func.id if isinstance(dn.func, ast.Name) else dn.func.attr
-                    if fn in ("dict", "OrderedDict", "defaultdict", "WeakValueDictionary", "WeakKeyDictionary"):
-                        kind = "dict"
-                    elif fn in ("list", "set", "deque"):
-                        kind = "seq"
+                kind = self.mutable_container_kind(dn)
                 if kind == "dict":
                     v = OpaqueDict("{}.{}".format(mod, name))
                     self.module_globals[(mod, name)] = v
@@ -1491,14 +1500,38 @@ class Engine:
             if n not in bound:
                 di = i - (len(names) - nd)
                 if di >= 0:
+                    # a mutable default (def f(x, _memo={})) is created once per process: state shared between calls
+                    kind = self.mutable_container_kind(defaults[di])
+                    if kind == "dict":
+                        key = (closure.module, "<default of {}>".format(closure.name), n)
+                        if key not in self.module_globals:
+                            self.module_globals[key] = OpaqueDict("{}.{}".format(closure.name, n))
+                            self.used_assumptions.add("mutable default arguments are arbitrary state at function entry")
+                        bound[n] = self.module_globals[key]
+                        continue
+                    if kind == "seq":
+                        raise OutsideSubset("mutable default argument {} of {} (state shared between calls) is not modelled".format(n, closure.name))
                     bound[n] = self.ev(defaults[di], Env(None, {"__module__": closure.module}))
                 else:
                     raise OutsideSubset("missing argument {} for {}".format(n, closure.name))
         env.vars.update(bound)
         return env
 
+    @staticmethod
+    def check_decorators(fnode, name):
+        """only decorators that do not change the call semantics under CPython are accepted (anything else, e.g. a cache
+        decorator, would be silently ignored otherwise)"""
+        for d in getattr(fnode, "decorator_list", []):
+            f = d.func if isinstance(d, ast.Call) else d
+            if isinstance(f, ast.Name) and f.id in ("property", "staticmethod"):
+                continue
+            if isinstance(f, ast.Attribute) and isinstance(f.value, ast.Name) and f.value.id == "cython":
+                continue
+            raise OutsideSubset("decorator `{}` on {} is not modelled".format(ast.unparse(d), name))
+
     def call_closure(self, clo, args, kwargs):
         fnode = clo.node
+        self.check_decorators(fnode, clo.name)
         env = self.bind_params(fnode, clo, args, kwargs)
         if isinstance(fnode, ast.Lambda):
             return self.ev(fnode.body, env)
@@ -1949,6 +1982,7 @@ class Engine:
     def verify(self, contract, max_paths=4000):
         """generate all obligations of `contract.target`; returns number of completed paths"""
         m, fnode, cls = self.find_function(contract.target)
+        self.check_decorators(fnode, contract.target)
         scenarios = contract.setup(self) if contract.setup else [dict(label="", args={}, assume=[])]
         total_paths = 0
         # loop ordinals (source order)
